@@ -2,6 +2,7 @@ package main
 
 import (
 	"strings"
+	"time"
 
 	"github.com/boombuler/barcode/utils"
 )
@@ -52,6 +53,14 @@ func init() {
 			case 'i':
 				var bs []byte
 				for b := range bl.IterateBytes() {
+					bs = append(bs, b)
+				}
+				out = append(out, tohex(bs))
+			case 'J': // IterateBytes drained only after a pause (the producer runs before the consumer is waiting)
+				ch := bl.IterateBytes()
+				time.Sleep(3 * time.Millisecond)
+				var bs []byte
+				for b := range ch {
 					bs = append(bs, b)
 				}
 				out = append(out, tohex(bs))
